@@ -167,6 +167,110 @@ def batcher_hooks(P, N, sites=None):
     return refine, expr, node
 
 
+LIST_MUTATORS = {'append', 'insert', 'extend', 'remove', 'pop', 'clear', 'sort', 'reverse', 'popleft', 'appendleft', 'extendleft', 'rotate'}
+MUTATING_CALLEES = {'random.shuffle', 'shuffle', 'bisect.insort', 'bisect.insort_left', 'bisect.insort_right', 'insort', 'heapq.heappush', 'heapq.heappop',
+                    'heapq.heapify', 'heappush', 'heappop', 'heapify'}
+
+
+def parts_aliasing(ctx):
+    """C17.11: who can change the list of parts of a batch, and through which name"""
+    P = ctx.P
+    o = Ob('C17.11', 'K1+K7', "a batch's list of parts is changed only by the batcher's own unpack/pack statements (`<slot>.parts.pop(0)` / `.parts.append(x)`) and by Batch "
+                              'itself: no helper, query or statistic hands the list itself out under another name and then extends, shortens or re-orders it in place '
+                              '(`held = f(batch); held += more` appends to the batch: the same part is then held twice and leaves twice)')
+    owners = {c.name for c in (P.cls('Batch'), P.cls('PartBatcher')) if c is not None}
+    for nm in ('PartGenerator',):
+        if P.has_cls(nm):
+            owners.add(nm)
+    funcs = [(m, c, f) for m, c, f in inv.functions(P)]
+    par_of = {id(m): m.parents for m in P.mods.values()}
+    raw_funcs, raw_props = set(), set()          # names of functions / properties that can return the list itself
+
+    def is_prop(c, f):
+        return c is not None and any(ast.unparse(d) in ('property', 'functools.cached_property', 'cached_property') for d in f.decorator_list)
+
+    def classify(m, c, f, e, direct, seen):
+        """e evaluates to (possibly) the list itself; yields ('mutate', node, how, direct) / ('return', node) for what happens to it"""
+        par = par_of[id(m)]
+        p = par.get(e)
+        while isinstance(p, (ast.IfExp, ast.BoolOp)) and (not isinstance(p, ast.IfExp) or e is not p.test):
+            e, p = p, par.get(p)
+        if isinstance(p, ast.Return):
+            yield ('return', p)
+        elif isinstance(p, ast.Attribute) and p.value is e:
+            pp = par.get(p)
+            if isinstance(pp, ast.Call) and pp.func is p and p.attr in LIST_MUTATORS:
+                yield ('mutate', pp, f'.{p.attr}()', direct)
+        elif isinstance(p, ast.Subscript) and p.value is e and isinstance(p.ctx, (ast.Store, ast.Del)):
+            yield ('mutate', p, 'item assignment / deletion', direct)
+        elif isinstance(p, ast.AugAssign) and p.target is e:
+            yield ('mutate', p, 'augmented assignment', direct)
+        elif isinstance(p, ast.Call) and e in p.args and ast.unparse(p.func) in MUTATING_CALLEES:
+            yield ('mutate', p, f'{ast.unparse(p.func)}()', direct)
+        elif isinstance(p, ast.Assign) and p.value is e and len(p.targets) == 1 and isinstance(p.targets[0], ast.Name) and f is not None:
+            v = p.targets[0].id
+            if (id(f), v) in seen:
+                return
+            seen.add((id(f), v))
+            # every later use of the name is a use of the list (flow-insensitive: a name that is also bound to something else is still reported --
+            # `held = part.parts` is not a spelling this package needs)
+            for u in ast.walk(f):
+                if isinstance(u, ast.Name) and u.id == v and u is not p.targets[0]:
+                    if isinstance(u.ctx, ast.Load):
+                        yield from classify(m, c, f, u, False, seen)
+                    elif isinstance(par.get(u), ast.AugAssign) and par.get(u).target is u:
+                        yield ('mutate', par.get(u), f'`{v} {ast.unparse(par.get(u))[len(v) + 1:].split("=")[0]}= ...` on a name bound to the list', False)
+
+    def sources(m, f):
+        """expressions in f that evaluate to the list itself"""
+        for x in ast.walk(f):
+            if isinstance(x, ast.Attribute) and x.attr == 'parts' and isinstance(x.ctx, ast.Load):
+                yield x, True
+            elif isinstance(x, ast.Attribute) and x.attr in raw_props and isinstance(x.ctx, ast.Load):
+                yield x, False
+            elif isinstance(x, ast.Call) and ((isinstance(x.func, ast.Attribute) and x.func.attr in raw_funcs) or (isinstance(x.func, ast.Name) and x.func.id in raw_funcs)):
+                yield x, False
+    changed = True
+    rounds = 0
+    while changed and rounds < 6:
+        changed = False
+        rounds += 1
+        for m, c, f in funcs:
+            if c is not None and c.name == 'Batch' and f.name == 'parts':
+                continue                 # a property that stands for the field itself (canonical private field)
+            for e, direct in list(sources(m, f)):
+                for ev in classify(m, c, f, e, direct, set()):
+                    if ev[0] == 'return':
+                        tgt = raw_props if is_prop(c, f) else raw_funcs
+                        if f.name not in tgt and f.name != 'parts':
+                            tgt.add(f.name)
+                            changed = True
+    n_mut = 0
+    for m, c, f in funcs:
+        for e, direct in list(sources(m, f)):
+            for ev in classify(m, c, f, e, direct, set()):
+                if ev[0] != 'mutate':
+                    continue
+                o.count()
+                n_mut += 1
+                _, node, how, is_direct = ev
+                where = f'{c.name}.{f.name}' if c is not None else f.name
+                if is_direct and c is not None and c.name in owners:
+                    o.witness(('owner', c.name, how))
+                    continue
+                st = inv._enclosing_stmt(m, node)
+                if is_direct:
+                    o.fail(P, where, st, f"a batch's list of parts is changed ({how}) outside Batch and the batcher: a part can be dropped from or added to a batch that some "
+                           'device holds', file=m.path, line=getattr(node, 'lineno', None))
+                else:
+                    o.fail(P, where, st, f"the list of parts of a batch is changed in place through another name ({how}): the value came from `.parts` itself "
+                           f"({', '.join(sorted(raw_funcs | raw_props)) or 'a local alias'} hand the list out, not a copy), so the batch held by a device grows, shrinks or is "
+                           're-ordered by what looks like a query', file=m.path, line=getattr(node, 'lineno', None))
+    o.stats = {'functions_returning_the_list_itself': sorted(raw_funcs), 'properties_returning_the_list_itself': sorted(raw_props), 'mutation_sites': n_mut}
+    o.require(n_mut >= 2, 'the unpack (`parts.pop`) and pack (`parts.append`) statements of the batcher were not found')
+    return o
+
+
 def check(ctx):
     P = ctx.P
     if not P.has_cls('PartBatcher'):
@@ -439,6 +543,7 @@ def check(ctx):
         if not any(isinstance(x, ast.Assign) and ast.unparse(x.targets[0]) == 'self.parts' for x in ast.walk(init)):
             o.fail(P, 'Batch.__init__', 'self.parts = parts', 'a batch does not keep the given parts', file=b.mod.path, line=init.lineno)
     obs.append(o8)
+    obs.append(parts_aliasing(ctx))
     obs.append(ctx.shared('c05', 'C05.2', 'C17.9', 'a batcher downstream of a buffer unpacks an accepted batch in place, so the buffer must size a stored batch before handing it over '
                           '(counted afterwards, the level drifts upwards and the buffer ends up refusing every batch)'))
     obs.append(ctx.shared('c08', 'C08.2', 'C17.10', 'a batch forwards history edits to its parts, whose histories are longer than its own: a refused hand-over may only take back '
